@@ -76,8 +76,7 @@ def anLineage (d : Gen.D) (cat : String) (text : List Char) : String :=
     | .ok (.select q) =>
       (match LN.selectLineage cat (LN.fuelFor q) q {} with
        | .ok (lin, st) =>
-         "OK " ++ showVal (.list (lin.allColumns.map fun (c, s) =>
-            .tuple [Val.ofOpt AN.SCol.toVal c, Val.ofOpt (fun l => .list (l.map LN.SrcCol.toVal)) s])) ++ showAsked st
+         "OK " ++ showVal (.list (lin.allColumns.map fun (c, s) => .tuple [c.toVal, .list (s.map LN.SrcCol.toVal)])) ++ showAsked st
        | .error e => e.show)
     | .ok (.insertSelect h q) =>
       (match LN.insertLineage cat h q {} with
